@@ -743,3 +743,57 @@ func freeVarsParts(parts []TPart, bound map[string]int, out map[string]bool) {
 		}
 	}
 }
+
+// FreeVarsBody is the set of root variable names occurring free in the attribute
+// expressions of a body tree: names bound by for expressions, template for directives
+// and dynamic-block iterators (visible in the labels and content of their block, not in
+// its for_each) are excluded.
+func FreeVarsBody(b *Body) map[string]bool {
+	out := map[string]bool{}
+	freeVarsBody(b, map[string]int{}, out)
+	return out
+}
+
+// FreeVarsBodyIn is FreeVarsBody restricted to the attributes found inside blocks of the
+// given types (at any depth).
+func FreeVarsBodyIn(b *Body, types map[string]bool) map[string]bool {
+	out := map[string]bool{}
+	freeVarsBodySel(b, map[string]int{}, out, types, false)
+	return out
+}
+
+func freeVarsBody(b *Body, bound map[string]int, out map[string]bool) {
+	freeVarsBodySel(b, bound, out, nil, true)
+}
+
+func freeVarsBodySel(b *Body, bound map[string]int, out map[string]bool, types map[string]bool, active bool) {
+	if b == nil {
+		return
+	}
+	for _, it := range b.Items {
+		switch x := it.(type) {
+		case Attr:
+			if active {
+				freeVars(x.Expr, bound, out)
+			}
+		case Block:
+			freeVarsBodySel(x.Body, bound, out, types, active || types[x.Type])
+		case Dyn:
+			if active {
+				freeVars(x.ForEach, bound, out)
+			}
+			name := x.Iterator
+			if name == "" {
+				name = x.Type
+			}
+			withBound(bound, []string{name}, func() {
+				if active {
+					for _, l := range x.Labels {
+						freeVars(l, bound, out)
+					}
+				}
+				freeVarsBodySel(x.Content, bound, out, types, active || types[x.Type])
+			})
+		}
+	}
+}
